@@ -116,6 +116,10 @@ class VttContext:
       color = style.get_color(element)
       bg_color = style.get_background_color(element)
 
+      if element.get_style(StyleProperties.Color) == NamedColors.white.value:
+        # text in the default color is not enclosed in a tag
+        color = None
+
       if bg_color is None:
         # the background of an enclosing span remains visible behind a span without background
         bg_color = self._enclosing_bg_color
